@@ -44,6 +44,8 @@ func replayOnRealCode(r symex.Result) *realReplay {
 	switch {
 	case strings.HasPrefix(o.Func, "jp.(Expr).") && (strings.HasPrefix(o.Region, "nth") || strings.HasPrefix(o.Region, "slice") || strings.HasPrefix(o.Region, "union")):
 		gen = func(w map[string]symex.WVal) (string, string) { return "jp", jpIndexTest(o.Region, w) }
+	case o.Func == "jp.(Nth).remove" || o.Func == "jp.(Slice).remove":
+		gen = func(w map[string]symex.WVal) (string, string) { return "jp", jpRemoveTest(o.Func, w) }
 	case o.Func == "jp.evalStack" && strings.HasPrefix(o.Region, "op"):
 		gen = func(w map[string]symex.WVal) (string, string) { return "jp", jpEvalTest(o.Region, w) }
 	default:
@@ -245,6 +247,94 @@ func TestVcheckReplay(t *testing.T) {
 			}()
 		}
 	}
+}
+`
+}
+
+// jpRemoveTest: Expr.Remove of an index or slice fragment on []any and gen.Array at the parameters of the model: the
+// result must be the array without exactly the elements the fragment denotes (the denotation Get uses).
+func jpRemoveTest(fn string, w map[string]symex.WVal) string {
+	n, ok := wInt(w, "n")
+	if !ok {
+		return ""
+	}
+	var frag, want string
+	if strings.Contains(fn, "Slice") {
+		start, ok1 := wInt(w, "start0")
+		end, ok2 := wInt(w, "end0")
+		step, ok3 := wInt(w, "step0")
+		if !ok1 || !ok2 || !ok3 || step == "0" {
+			return ""
+		}
+		frag = fmt.Sprintf("Slice(%s, %s, %s)", start, end, step)
+		want = fmt.Sprintf("wantSlice(n, %s, %s, %s)", start, end, step)
+	} else {
+		i, ok1 := wInt(w, "i0")
+		if !ok1 {
+			return ""
+		}
+		frag = fmt.Sprintf("Nth(%s)", i)
+		want = fmt.Sprintf("wantIndex(n, %s)", i)
+	}
+	src := jpIndexTest("nthX", map[string]symex.WVal{"n": w["n"], "i0": {Kind: "int", Int: "0"}})
+	k := strings.Index(src, "func TestVcheckReplay")
+	return src[:k] + `func TestVcheckReplay(t *testing.T) {
+	n := ` + n + `
+	if n < 0 || 100000 < n {
+		t.Skip("model array too large to build")
+	}
+	sel := map[int]bool{}
+	for _, i := range ` + want + ` {
+		sel[i] = true
+	}
+	var keep []int
+	for i := 0; i < n; i++ {
+		if !sel[i] {
+			keep = append(keep, i)
+		}
+	}
+	x := R().` + frag + `
+	for _, kind := range []string{"[]any", "gen.Array"} {
+		var data any
+		if kind == "[]any" {
+			a := make([]any, n)
+			for i := range a {
+				a[i] = i
+			}
+			data = a
+		} else {
+			a := make(gen.Array, n)
+			for i := range a {
+				a[i] = gen.Int(i)
+			}
+			data = a
+		}
+		func() {
+			defer func() {
+				if r := recover(); r != nil {
+					t.Errorf("REPLAY-FAIL %s.Remove on %s of length %d: panic: %v", x, kind, n, r)
+				}
+			}()
+			out, err := x.Remove(data)
+			if err != nil {
+				t.Errorf("REPLAY-FAIL %s.Remove on %s of length %d: %v", x, kind, n, err)
+				return
+			}
+			var got []int
+			switch to := out.(type) {
+			case []any:
+				got = toInts(to)
+			case gen.Array:
+				for _, v := range to {
+					got = append(got, toInts([]any{v})...)
+				}
+			}
+			if !reflect.DeepEqual(got, keep) && !(len(got) == 0 && len(keep) == 0) {
+				t.Errorf("REPLAY-FAIL %s.Remove on %s of length %d leaves %v; without exactly the selected elements it is %v", x, kind, n, got, keep)
+			}
+		}()
+	}
+	_ = fmt.Sprint
 }
 `
 }
